@@ -175,6 +175,7 @@ func (db *MultiBucketBackend) getBucketWithFilePrefixLocked(bucket string, prefi
 		}
 	}
 
+	sortObjectList(response)
 	return response, nil
 }
 
@@ -226,6 +227,7 @@ func (db *MultiBucketBackend) getBucketWithArbitraryPrefixLocked(bucket string, 
 		return nil, err
 	}
 
+	sortObjectList(response)
 	return response, nil
 }
 
